@@ -121,6 +121,9 @@ def main():
         d = tempfile.mkdtemp(prefix='i18n-verif-c15.')
         try:
             res, skipped = C.e2e(pick, d)
+        except Exception as exc:
+            res, skipped = [], {'harness-error:' + type(exc).__name__: len(pick)}
+            chk.broken.append({'kind': 'correspondence', 'stream': 'e2e-files', 'problem': f'the real Checker could not be driven: {type(exc).__name__}: {exc}'})
         finally:
             shutil.rmtree(d, ignore_errors=True)
         e2e_model = common.run_driver([C.all_line(c) for c, _ in res])
